@@ -54,6 +54,7 @@ class Spec:
     inline: tuple | None = None  # repo functions that may be inlined (None: any)
     externals: dict = {}  # assumed models of external callables, by dotted name
     expect_raises: bool = False
+    may_raise: tuple = ()  # exception classes the function may raise on inputs the precondition does not exclude
     max_paths = 400
 
     def unit_name(self):
@@ -361,6 +362,9 @@ def _post(spec: Spec, cx, a, b, outcome):
     rz = spec.raises(cx, a)
     if outcome[0] == "raise":
         cls = outcome[1]
+        if cls in spec.may_raise:
+            cx.oblige(f"raises {cls}: allowed by the contract", True, kind="post")
+            return
         if not rz:
             cx.oblige(f"no exception on valid input (raised {cls}{outcome[2] if outcome[2] else ''})", False, kind="post")
             return
